@@ -190,11 +190,16 @@ NumChainsDoc(c) == IF c.L > 0 THEN c.L ELSE IF c.C = 0 \/ c.C > c.S THEN c.S ELS
 NumSteps(S, chainsN) == Ceil(S, chainsN)                  \* int(np.ceil(num_samples / num_chains))
 GibbsK(i, c) == IF i = 0 THEN c.burn ELSE c.steps         \* burn_in if i == 0 else steps
 
+\* conv: the user's initial_state is not a float64 tensor on the model's device (float32, int64, ...): the
+\* first sample() call converts it, i.e. works on a fresh buffer and leaves its argument alone even with
+\* overwrite=True (named deviation DevConvert: what the code does; the documentation is silent)
 BCfgs ==
-    {[kind |-> kd, nobs |-> no, S |-> s, C |-> c, burn |-> bu, steps |-> st, L |-> l, ow |-> o] :
+    {[kind |-> kd, nobs |-> no, S |-> s, C |-> c, burn |-> bu, steps |-> st, L |-> l, ow |-> o, conv |-> cv] :
         kd \in {"obs", "sys"}, no \in 1..MaxObs, s \in 1..MaxS, c \in 0..MaxC, bu \in Ks, st \in Ks,
-        l \in 0..MaxL, o \in BOOLEAN}
+        l \in 0..MaxL, o \in BOOLEAN, cv \in BOOLEAN}
+Conv(c) == "conv" \in DOMAIN c /\ c.conv
 BCfgOK(c) == /\ (c.kind = "obs" => c.nobs = 1)
+             /\ (c.L = 0 => ~Conv(c))
              /\ (c.L > 0 => c.C \in {0, 1, MaxC})   \* num_chains is ignored when a buffer is given: three values suffice
 BShards == {<<kd, s>> : kd \in {"obs", "sys"}, s \in 1..MaxS}
 
@@ -237,11 +242,12 @@ DrawWith(to) ==
     /\ pc = "Draw" /\ Len(draws) < nt
     /\ LET i    == Len(draws)
            init == chains
-           ret  == IF init = 0 THEN Len(content) + 1 ELSE init
+           new  == init = 0 \/ (Conv(cfg) /\ i = 0)          \* a fresh result buffer
+           ret  == IF new THEN Len(content) + 1 ELSE init
            from == IF init = 0 THEN 0 ELSE content[init]
        IN  /\ draws' = Append(draws, [k |-> GibbsK(i, cfg), ns |-> cp, init |-> init, ow |-> TRUE,
                                       ret |-> ret, from |-> from, to |-> to])
-           /\ content' = IF init = 0 THEN Append(content, to) ELSE [content EXCEPT ![init] = to]
+           /\ content' = IF new THEN Append(content, to) ELSE [content EXCEPT ![init] = to]
            /\ chains' = ret
            /\ evals' = evals \o [o \in 1..cfg.nobs |-> [draw |-> i + 1, obs |-> o, seen |-> to]]
            /\ count' = count + cp
@@ -282,8 +288,8 @@ Continuity ==
 \* the user's buffer holds the final chain states iff overwrite, else what the user put in
 UserBuffer ==
     BLive /\ cfg.L > 0 =>
-        /\ (~cfg.ow => content[1] = 1)
-        /\ (cfg.ow /\ Len(draws) >= 1 => content[1] = draws[Len(draws)].to)
+        /\ (~cfg.ow \/ Conv(cfg) => content[1] = 1)
+        /\ (cfg.ow /\ ~Conv(cfg) /\ Len(draws) >= 1 => content[1] = draws[Len(draws)].to)
 \* System: one chain advance per draw, shared by all observables
 SharedAdvance ==
     BLive => /\ Len(evals) = cfg.nobs * Len(draws)
